@@ -16,7 +16,7 @@ RULE = ('models: fixed regression catalogue + exhaustive enumeration of small mo
         'independent reference matchers; a case = (version, model, word); non-trivial case = model with nesting, a '
         'non-default group occurrence or a non-element leaf, counted once per distinct (version, canonical model) that '
         'was compared on at least one accepted and one rejected word')
-RULE += (' ' + 'XSD 1.1 wildcards with notQName="##definedSibling" (they refuse every name the same content model declares, at any depth) are part of the catalogue and of the random models.')
+RULE += (' ' + 'Particles with maxOccurs=0 (no particle at all) and nested choices without particles are in the catalogue and in 8 % of the random models. XSD 1.1 wildcards with notQName="##definedSibling" (they refuse every name the same content model declares, at any depth) are part of the catalogue and of the random models.')
 ASSUMPTIONS = [
     'children are empty xs:string leaves so only the content model decides validity',
     'domain = models deterministic under the XSD 1.0 UPA reading by both reference formulations; for XSD 1.1 words on '
@@ -53,6 +53,9 @@ def catalogue():
     w = lambda con, mn=1, mx=1: ('w', con, mn, mx)
     h = lambda mn=1, mx=1: ('h', mn, mx)
     cat = [
+        # maxOccurs=0: no particle at all; a choice without particles matches nothing
+        (c([e('a', 0, 0), e('b')]), {}), (s([e('a'), c([])]), {}), (s([e('a'), c([], 0, 1)]), {}),
+        (c([s([e('a')], 0, 0), e('b')]), {}), (s([e('a', 0, 0), e('b')]), {}), (s([e('a'), c([e('b', 0, 0)])]), {}),
         # notQName="##definedSibling": siblings declared in nested groups count
         (s([c([e('a'), e('b')]), w('any~a,b', 0, None)]), {}),
         (s([s([e('a'), e('b')], 0, 1), w('any~a,b', 0, None)]), {}),
@@ -358,12 +361,18 @@ def classify(node, cfg, word, version, direction):
             if any(sym in declared and M.wildcard_admits(cfg['open'][1], sym) for sym in word):
                 return 'open-content-interleave+name-declared-in-model:false-reject'
         return f'unclassified:{direction}: {K.witness_text(node, cfg, word)}'
+    if M.has_empty_choice(node) and direction == 'false-accept':
+        return 'nested-choice-without-particles-matches-the-empty-sequence:false-accept'
+    if M.has_absent(node):
+        return f'particle-with-maxOccurs-0-read-as-an-emptiable-particle:{direction}'
     if version == '1.1' and R.has_competition(model):
         return f'v11-wildcard-precedence:{direction}'
-    if direction == 'false-reject' and small:
+    if direction == 'false-reject' and M.size(node) <= 7:
+        # (the minimal witnesses of this family have up to 6-7 particles when the emptiable part is a nested group)
         for g in groups_of(node):
             if g[2] >= 2 and body_nullable(g):
                 return 'emptiable-group-min2:false-reject'
+    if direction == 'false-reject' and small:
         for g in groups_of(node):
             if g[3] is None or g[3] >= 2:
                 for p in particles_below(g):
@@ -425,6 +434,16 @@ def run_shard(spec, res):
                 # XSD 1.1: wildcards that refuse the names declared anywhere in the same content model
                 node = M.with_defined_sibling(node, rng)
                 res.count('random:models_with_definedSibling')
+            if not cfg and M.is_group(node) and node[0] != 'a' and rng.random() < 0.08:
+                # one particle with maxOccurs=0, or a nested choice without particles
+                kids = list(node[1])
+                i = rng.randrange(len(kids))
+                if rng.random() < 0.7:
+                    kids[i] = tuple(kids[i][:-2]) + (0, 0)
+                else:
+                    kids.insert(i, ('c', (), rng.choice((0, 1)), 1))
+                node = (node[0], tuple(kids)) + tuple(node[2:])
+                res.count('random:models_with_absent_particle_or_empty_choice')
             res.count('random:models')
             judge.run_model(node, cfg, 'random')
 
